@@ -442,7 +442,7 @@ Qed.
 
 (* ---------- ">>" is two closing brackets: the parser gives the same answer on the token list in which every ">>" is replaced by
    two ">" tokens (at the byte positions of its two halves) ---------- *)
-Definition first_half (t : ptok) : ptok := {| pk := bs ">"; praw := bs ">"; pstr := pstr t; ppos := ppos t; pend := pend t; pbase := pbase t |}.
+Definition first_half (t : ptok) : ptok := {| pk := bs ">"; praw := bs ">"; pstr := pstr t; ppos := ppos t; pend := (ppos t + 1)%Z; pbase := pbase t |}.
 
 Fixpoint unfuse (ts : toks) : toks :=
   match ts with
